@@ -90,6 +90,16 @@ pub fn run(outdir: &str, seed: u64, thorough: bool) -> serde_json::Value {
         // IN and LIKE over a disjunction (they bind tighter than OR)
         ("in-list-of-disjunction", "SELECT (t.age > 3{k} OR t.id > 2{k}) IN (FALSE) AS b, t.id AS i FROM users AS t"),
         ("like-of-disjunction", "SELECT (t.city = 'Paris' OR t.age > 3{k}) LIKE '0' AS b, t.id AS i FROM users AS t"),
+        // DISTINCT aggregates over values that repeat inside a group
+        ("distinct-aggregates-over-repeated-values", "SELECT t.city AS c, AVG(DISTINCT CASE WHEN t.age > 4{k} THEN 1 ELSE 0 END) AS m, AVG(CASE WHEN t.age > 4{k} THEN 1 ELSE 0 END) AS n, SUM(DISTINCT CASE WHEN t.age > 4{k} THEN 2 ELSE 1 END) AS s, COUNT(DISTINCT t.city) AS k FROM users AS t GROUP BY t.city"),
+        ("distinct-aggregates-ungrouped", "SELECT AVG(DISTINCT CASE WHEN o.amount > {k}0 THEN 10 ELSE 0 END) AS m, SUM(DISTINCT o.status = 'new') AS s, COUNT(DISTINCT o.status) AS k, COUNT(o.status) AS n FROM orders AS o"),
+        // GROUP BY that only selects its keys under a WHERE; aggregates of the grouping key; a column selected twice
+        ("group-by-keys-only-with-where", "SELECT t.city AS a FROM users AS t WHERE t.age > 7{k} GROUP BY t.city"),
+        ("group-by-keys-only-with-where-two-keys", "SELECT o.status AS a, o.user_id AS b FROM orders AS o WHERE o.amount > 30{k} GROUP BY o.status, o.user_id"),
+        ("aggregate-of-the-grouping-key", "SELECT t.age AS a, SUM(t.age) AS s, COUNT(t.age) AS n FROM users AS t GROUP BY t.age"),
+        ("having-aggregate-of-the-grouping-key", "SELECT t.city AS a FROM users AS t GROUP BY t.city HAVING COUNT(t.city) > {k}"),
+        ("having-bare-grouping-key", "SELECT t.city AS a, COUNT(*) AS n FROM users AS t GROUP BY t.city HAVING t.city <> 'Lyon' AND COUNT(t.id) > 1"),
+        ("column-selected-twice", "SELECT t.age, t.age FROM users AS t"),
         ("constant-before-aggregate-having", "SELECT {k} AS one, SUM(t.amount) AS s FROM orders AS t HAVING SUM(t.amount) > 0"),
         ("using", "SELECT * FROM users AS a JOIN orders AS b USING (id)"),
         ("using-left", "SELECT * FROM orders AS a LEFT JOIN users AS b USING (id)"),
